@@ -37,6 +37,10 @@ Verdict(r) ==
               THEN [c |-> "labels", d |-> ToString((s.labels \ LabelSet(r.obs.labels)) \cup (LabelSet(r.obs.labels) \ s.labels))]
          ELSE [c |-> "ok", d |-> ""]
 
-Judge == i = 0 \/ LET r == Trace[i] v == Verdict(r) IN
+\* a record may carry an alternative reading of the same source (r.alt): accepted if either reading explains it
+VerdictAlt(r) == LET v == Verdict(r) IN
+                 IF v.c = "ok" \/ "alt" \notin DOMAIN r THEN v
+                 ELSE LET w == Verdict([r EXCEPT !.prog = r.alt]) IN IF w.c = "ok" THEN w ELSE v
+Judge == i = 0 \/ LET r == Trace[i] v == VerdictAlt(r) IN
                   IF v.c = "ok" THEN TRUE ELSE PrintT(ToJson([id |-> r.id, clause |-> v.c, detail |-> v.d]))
 =============================================================================
